@@ -179,3 +179,30 @@ Example basic_host_same_situations_accepted :
   holds 8 true (limL c) (trace_i 8 c init_st [OAdd 5; OBatch [mkReq [5] [] false false];
                                                OAdd 6; OBatch [mkReq [6] [] false false]]) = true.
 Proof. vm_compute. reflexivity. Qed.
+
+(* ---- a fresh connection: older knowledge is no excuse ------------------------- *)
+(* the dialer knew protocol 0; the handler is removed and 1 registered; the
+   connection is replaced below the host; NewStream [0; 1] racing identify.  The
+   model waits for identify (knowledge = what the listener advertises) and gets 1 *)
+Example reconnect_refreshes_knowledge :
+  let tr := trace_i 4 nolim init_st [OAdd 0; OKnow [0]; ORemove 0; OAdd 1; OReconnect 1 0;
+                                     OBatch [mkReq [0; 1] [] false false]] in
+  match nth 5 tr (OAdd 0, ObMux []) with
+  | (_, ObBatch [r] _ _ _) => obtained r = true /\ o_dp r = 1
+  | _ => False
+  end.
+Proof. vm_compute. repeat split. Qed.
+
+(* ... and the monitor rejects the trace in which the stream was bound to the
+   stale protocol 0 and failed at first use although 1 was served *)
+Example monitor_rejects_stale_choice_on_fresh_connection :
+  monitor_case [7; 0; 0; 2; -1; -1; -1; -1;  1; 0; 1; 0;  4; 1; 0; 1; 0;  3; 0; 0;  1; 1; 1; 1;
+                7; 1; 0; 1; 1; 0; 0; 0; 0;
+                5; 1; 0; 2; 0; 1;  0; 0; 0; -1; -1; 0; -1; -1;  0;  1; 0;  0; 0; 0; 0] <> [].
+Proof. vm_compute. discriminate. Qed.
+
+(* the same observation WITHOUT the reconnect is the tolerated stale-knowledge case *)
+Example monitor_accepts_stale_choice_on_old_connection :
+  monitor_case [7; 0; 0; 2; -1; -1; -1; -1;  1; 0; 1; 0;  4; 1; 0; 1; 0;  3; 0; 0;  1; 1; 1; 1;
+                5; 1; 0; 2; 0; 1;  0; 0; 0; -1; -1; 0; -1; -1;  0;  1; 0;  0; 0; 0; 0] = [].
+Proof. vm_compute. reflexivity. Qed.
